@@ -1,13 +1,16 @@
 #!/usr/bin/env python3
 """rs2v: translator from a small subset of Rust (the word-level kernels of crypto-bigint: straight-line `const fn`s over
-u8/u32/u64/u128/bool, newtypes over a word, tuples, one struct of words, counted `while` loops) to Gallina over Z.
+u8/u32/u64/u128/bool, newtypes over a word, tuples, one struct of words, counted `while` loops, limb arrays and limb slices)
+to Gallina over Z.
 
 It is run by ./check on EVERY run against /repo's current source and regenerates coq/Src/Gen*.v; the hand-written files
 coq/Src/Gen*P.v then prove, for all arguments, `generated function = the function of coq/Model used by the property
 theorems`.  A change of a kernel's source text therefore changes the generated definition and the equality proof is
 re-checked against what the code says now (translator tie, in addition to the sampled correspondence).
 
-Semantics implemented (64-bit target, release profile: integer overflow wraps; `debug_assert!` is dropped):
+Semantics implemented (64-bit target, release profile: integer overflow wraps; `debug_assert!` / `assert!` are dropped:
+the theorems state the hypotheses under which they hold; an out-of-bounds index reads 0 / `upd_` beyond the end appends,
+the theorems carry the length hypotheses):
   a + b, a - b, a * b at type uN        add_ N a b = (a + b) mod 2^N, sub_, mul_
   a << s, a >> s                         shl_ N a s = (a * 2^s) mod 2^N,  shr_ a s = a / 2^s
   & | ^ !                                Z.land Z.lor Z.lxor, not_ N a = 2^N - 1 - a
@@ -18,6 +21,42 @@ Semantics implemented (64-bit target, release profile: integer overflow wraps; `
   let / let mut / shadowing / x = e / x op= e   nested `let`
   `let mut i = 0; while i < LIT { ..; i += 1 }`  unrolled LIT times
   `while i > 0 { i -= 1; .. }`           Nat.iter (Z.to_nat i) over the tuple of variables assigned in the body
+  [Limb; LIMBS], Uint<LIMBS>             list Z; a[i] -> nth (Z.to_nat i) a 0 ; a[i] = v -> upd_ a (Z.to_nat i) v ; functions of
+                                         `impl Uint<LIMBS>` / `impl Int<LIMBS>` take (LIMBS : nat) first
+  `let mut i = 0; while i < LIMBS { ..; i += 1 }`   Nat.iter LIMBS over (i, the variables the body assigns, in order of
+                                         first assignment); a `let` inside a body makes the name local to the body
+Added for the slice kernels, the shifts and Int (each is a construct of the language / a type name of the crate, never a
+particular function):
+  &[Limb], &mut [Limb]                   list Z (type `slice`); x.len() -> (Z.of_nat (length v_x)) : usize ; x[i], x[i] = v as above
+  fn f(.., lo: &mut [Limb], ..) (unit)   the Coq function RETURNS the final contents of its `&mut` parameters (one list, or the
+                                         tuple of them in parameter order); such a function may not be called in expression position
+  `let mut i = 0; while i < x.len() {..; i += 1}`   Nat.iter (length v_x) .. (a slice never changes its length)
+  `while i < E { ..; i += 1 }`, any start value, E not changed by the body   Nat.iter (Z.to_nat (E - v_i)) ..
+                                         (max(0, E - i) iterations; i < E so `i += 1` cannot wrap)
+  if c { A } else { B } / else if / no else, as a STATEMENT (the branches assign)
+                                         let '(x1, .., xn) := if c then (A; (x1, .., xn)) else (B; (x1, .., xn)) in ..
+                                         for the variables x1..xn assigned in either branch (declared outside it)
+  if c { a } else { b } as an EXPRESSION (tail of a block, right-hand side)   (if c then a else b); both blocks may contain `let`s
+  (p0, p1, ..) = rhs;  places x | x[i] | x.limbs[i] | x[i].0   let '(tmp_0, tmp_1, ..) := rhs in, then the places are assigned
+                                         left to right (each index expression is evaluated when its place is assigned)
+  `if c { panic!(..) }` at the top level of the function body   if c then (panic_ D) else <rest of the function>, where D is the
+                                         default value of the result type (0 / false / nil / tuples of them) and
+                                         SrcPrelude.panic_ is the identity: the theorems state that c is false
+  `;` may be omitted before `}`; `Uint::<LIMBS>::new` (turbofish with LIMBS); 1u32-style suffixes
+  LIMBS, Self::LIMBS (in a generic impl) (Z.of_nat LIMBS) : usize
+  Int<LIMBS>                             newtype over Uint<LIMBS>, erased: `.0`, `Self(u)` are the identity; methods resolve to Int<LIMBS>::m
+  [Word; LIMBS], `[0; LIMBS]`            list Z whose elements are words (type `warr`)
+  Word::ZERO                             0
+  associated constants                   {"const": NAME, "impl": T} targets: `const NAME: Ty = e;` is translated like a function
+                                         without parameters (Definition g (LIMBS : nat) : Ty := e for a generic impl) and
+                                         T::NAME / Self::NAME refer to it
+  trait impls                            {"trait": Tr, "impl": T} targets: the function is looked up in `impl<..> Tr for T { .. }`
+  a / b, a % b (unsigned)                div_ a b = a / b, rem_ a b = a mod b (a zero divisor panics in Rust: hypothesis of the theorem)
+  `if c { return e; }` at the top level of the function body   if c then e else <rest of the function>
+  ConstCtOption<T>                       struct { value: T, is_some: ConstChoice } = the pair (value, is_some) : (T * Z);
+                                         `Self { value, is_some }` -> (v, c), `.value` / `.is_some` -> fst / snd; the functions of
+                                         `impl<T> ConstCtOption<T>` are translated from their source as polymorphic definitions
+                                         ({T : Type}) and T is instantiated at each call from the argument's type
 Anything else is a translation error: the function is emitted as an ill-typed stub so that its equality proof fails
 (reported as a broken proof obligation of the properties that rest on it), never silently skipped.
 """
@@ -57,11 +96,12 @@ def lex(src):
     return out
 
 # ------------------------------------------------------------------ locating a function
-def find_fn(src, name, impl=None):
-    """Returns (params_src, ret_src, body_src). Skips items under #[cfg(target_pointer_width = "32")]."""
+def find_fn(src, name, impl=None, trait=None):
+    """Returns (params_src, ret_src, body_src). Skips items under #[cfg(target_pointer_width = "32")].
+    `trait`: look in `impl<..> Trait for Impl { .. }` instead of the inherent impl blocks."""
     scope = src
     if impl:
-        ms = list(re.finditer(r'^impl(?:<[^>]*>)?\s+%s\s*\{' % re.escape(impl), src, re.M))
+        ms = list(re.finditer(r'^impl(?:<[^>]*>)?\s+%s%s\s*\{' % (re.escape(trait) + r'\s+for\s+' if trait else '', re.escape(impl)), src, re.M))
         if not ms:
             raise TErr('impl %s not found' % impl)
         # all inherent impl blocks of that type in the file, concatenated
@@ -97,6 +137,8 @@ ALIAS = {'Word': 'u64', 'WideWord': 'u128', 'usize': 'u64'}
 BITS = {'u8': 8, 'u16': 16, 'u32': 32, 'u64': 64, 'u128': 128, 'choice': 64, 'limb': 64}
 STRUCTS = {'Reciprocal': [('divisor_normalized', 'u64'), ('shift', 'u32'), ('reciprocal', 'u64')]}
 
+LISTS = ('arr', 'slice', 'int', 'warr')      # all `list Z` in Coq; they differ in the methods / element type they have
+
 def parse_type(s, selfty):
     s = s.strip()
     s = re.sub(r"^&\s*(mut\s+)?", '', s)
@@ -106,6 +148,17 @@ def parse_type(s, selfty):
         return ('tuple', [parse_type(p, selfty) for p in parts])
     if re.fullmatch(r'\[\s*Limb\s*;\s*LIMBS\s*\]', s) or re.fullmatch(r'Uint\s*<\s*LIMBS\s*>', s):
         return 'arr'
+    if re.fullmatch(r'\[\s*Limb\s*\]', s):
+        return 'slice'
+    if re.fullmatch(r'\[\s*Word\s*;\s*LIMBS\s*\]', s):
+        return 'warr'
+    if re.fullmatch(r'Int\s*<\s*LIMBS\s*>', s):
+        return 'int'
+    m = re.fullmatch(r'ConstCtOption\s*<(.*)>', s, re.S)
+    if m:
+        return ('ctopt', parse_type(m.group(1), selfty))
+    if s == 'T' and selfty == ('ctopt', 'T'):
+        return 'T'              # the type parameter of `impl<T> ConstCtOption<T>`
     s = ALIAS.get(s, s)
     if s == 'Self':
         return selfty
@@ -136,9 +189,33 @@ def coq_type(t):
         return '(' + ' * '.join(coq_type(x) for x in t[1]) + ')'
     if isinstance(t, tuple) and t[0] == 'struct':
         return 'g_' + t[1]
-    if t == 'arr':
+    if t in LISTS:
         return 'list Z'
+    if isinstance(t, tuple) and t[0] == 'ctopt':
+        return '(%s * Z)' % coq_type(t[1])
+    if t == 'T':
+        return 'T'
     return 'bool' if t == 'bool' else 'Z'
+
+def subst_T(t, x):
+    if t == 'T': return x
+    if isinstance(t, tuple) and t[0] == 'ctopt': return ('ctopt', subst_T(t[1], x))
+    if isinstance(t, tuple) and t[0] == 'tuple': return ('tuple', [subst_T(u, x) for u in t[1]])
+    return t
+
+def dummy(t):
+    """the value a diverging (`panic!`) branch is given: panic_ <this>"""
+    if isinstance(t, tuple) and t[0] == 'tuple':
+        return '(' + ', '.join(dummy(x) for x in t[1]) + ')'
+    if t in LISTS:
+        return 'nil'
+    if isinstance(t, tuple) and t[0] == 'ctopt':
+        return '(%s, 0)' % dummy(t[1])
+    if t == 'bool':
+        return 'false'
+    if t in BITS:
+        return '0'
+    raise TErr('no dummy value of type %s' % (t,))
 
 # ------------------------------------------------------------------ parser (Pratt)
 PREC = {'||': 1, '&&': 2, '==': 3, '!=': 3, '<': 3, '<=': 3, '>': 3, '>=': 3, '|': 4, '^': 5, '&': 6, '<<': 7, '>>': 7,
@@ -221,15 +298,23 @@ class P:
                 es.append(self.expr())
             self.expect(')')
             return ('tuple', es) if tup else es[0]
+        if x == ('id', 'if'):
+            return self.if_chain()
         if x[0] == 'id':
             path = [x[1]]
             while self.isop('::'):
-                self.next(); y = self.next()
+                self.next()
+                if self.isop('<'):
+                    # turbofish `Uint::<LIMBS>::new`: the only generic argument of the subset is LIMBS itself
+                    self.next()
+                    if not self.isid('LIMBS'): raise TErr('generic argument other than LIMBS')
+                    self.next(); self.expect('>'); continue
+                y = self.next()
                 if y[0] != 'id': raise TErr('bad path')
                 path.append(y[1])
             if self.isop('('):
                 return ('call', path, self.args())
-            if self.isop('{') and path[-1] in ('Self', 'Uint') + tuple(STRUCTS):
+            if self.isop('{') and path[-1] in ('Self', 'Uint', 'ConstCtOption') + tuple(STRUCTS):
                 self.next(); fields = []
                 while not self.isop('}'):
                     f = self.next()[1]
@@ -254,6 +339,41 @@ class P:
             else:
                 e = ('field', e, name)
         return e
+    def if_chain(self):
+        """after `if`: cond { block } [else { block } | else if ...] -> ('if', cond, then_stmts, else_stmts or None)"""
+        c = self.expr(); self.expect('{'); a = self.block(); self.expect('}')
+        b = None
+        if self.isid('else'):
+            self.next()
+            if self.isid('if'):
+                self.next(); b = [self.as_stmt(self.if_chain())]
+            else:
+                self.expect('{'); b = self.block(); self.expect('}')
+        return ('if', c, a, b)
+    @staticmethod
+    def as_stmt(node):
+        """an `if` whose branches end in an expression is a value (tail expression); otherwise a statement"""
+        if node[2] and node[2][-1][0] == 'ret':
+            return ('ret', node)
+        return node
+    @staticmethod
+    def place(pl):
+        """x | x[i] | x.limbs[i] | x[i].0 | x.limbs[i].0 -> ('pvar', x) / ('pidx', x, i)"""
+        if pl[0] == 'var':
+            return ('pvar', pl[1])
+        if pl[0] == 'field' and pl[2] == '0':
+            pl = pl[1]
+        if pl[0] == 'index':
+            base = pl[1]
+            if base[0] == 'field' and base[2] == 'limbs':
+                base = base[1]
+            if base[0] == 'var':
+                return ('pidx', base[1], pl[2])
+        raise TErr('unsupported assignment target')
+    def semi(self):
+        """`;`, optional before the closing brace of a block"""
+        if self.isop('}'): return
+        self.expect(';')
     # ---- statements
     def pattern(self):
         if self.isop('('):
@@ -290,30 +410,40 @@ class P:
             if self.isid('while'):
                 self.next(); c = self.expr(); self.expect('{'); b = self.block(); self.expect('}')
                 out.append(('while', c, b)); continue
+            if self.isid('if'):
+                self.next(); out.append(self.as_stmt(self.if_chain()))
+                if self.isop(';'): self.next()
+                continue
+            if self.isid('return'):
+                self.next(); e = self.expr(); self.semi()
+                out.append(('return', e)); continue
+            if self.isid('panic') and self.isop('!', 1):
+                self.next(); self.expect('!'); self.expect('('); depth = 1
+                while depth:
+                    y = self.next(); depth += (y == ('op', '(')) - (y == ('op', ')'))
+                if self.isop(';'): self.next()
+                out.append(('panic',)); continue
             if self.isid() and self.isop('[', 1):
                 # limbs[i] = e;
                 save = self.i
                 name = self.next()[1]; self.next(); ix = self.expr()
                 if self.isop(']') and self.isop('=', 1):
-                    self.next(); self.next(); e = self.expr(); self.expect(';')
+                    self.next(); self.next(); e = self.expr(); self.semi()
                     out.append(('iassign', name, ix, e)); continue
                 self.i = save
             if self.isid() and self.peek(1)[0] == 'op' and self.peek(1)[1] in ('=', '+=', '-=', '*=', '|=', '&=', '^=', '<<=', '>>='):
-                name = self.next()[1]; op = self.next()[1]; e = self.expr(); self.expect(';')
+                name = self.next()[1]; op = self.next()[1]; e = self.expr(); self.semi()
                 out.append(('assign', name, None if op == '=' else op[:-1], e)); continue
             e = self.expr()
             if self.isop('='):
                 # assignment to a place: x[i] = e / x.limbs[i] = e / x[i].0 = e / x.limbs[i].0 = e
-                self.next(); rhs = self.expr(); self.expect(';')
-                pl = e
-                if pl[0] == 'field' and pl[2] == '0':
-                    pl = pl[1]
-                if pl[0] == 'index':
-                    base = pl[1]
-                    if base[0] == 'field' and base[2] == 'limbs':
-                        base = base[1]
-                    if base[0] == 'var':
-                        out.append(('iassign', base[1], pl[2], rhs)); continue
+                self.next(); rhs = self.expr(); self.semi()
+                if e[0] == 'tuple':
+                    # destructuring assignment `(a[i], c) = rhs;`
+                    out.append(('tassign', [self.place(x) for x in e[1]], rhs)); continue
+                pl = self.place(e)
+                if pl[0] == 'pidx':
+                    out.append(('iassign', pl[1], pl[2], rhs)); continue
                 raise TErr('unsupported assignment target')
             if self.isop(';'):
                 self.next(); raise TErr('expression statement not supported')
@@ -326,12 +456,34 @@ CONSTS = {('Word', 'BITS'): ('64', 'u32'), ('WideWord', 'BITS'): ('128', 'u32'),
           ('u32', 'MAX'): ('(2 ^ 32 - 1)', 'u32'), ('WideWord', 'MAX'): ('(2 ^ 128 - 1)', 'u128'),
           ('Self', 'FALSE'): ('0', 'choice'), ('Self', 'TRUE'): ('(2 ^ 64 - 1)', 'choice'),
           ('ConstChoice', 'FALSE'): ('0', 'choice'), ('ConstChoice', 'TRUE'): ('(2 ^ 64 - 1)', 'choice'),
-          ('Limb', 'ZERO'): ('0', 'limb'), ('Limb', 'ONE'): ('1', 'limb'), ('Limb', 'MAX'): ('(2 ^ 64 - 1)', 'limb')}
+          ('Limb', 'ZERO'): ('0', 'limb'), ('Limb', 'ONE'): ('1', 'limb'), ('Limb', 'MAX'): ('(2 ^ 64 - 1)', 'limb'),
+          ('Word', 'ZERO'): ('0', 'u64')}
 ARR_CONSTS = {'ZERO': '(repeat 0 LIMBS)', 'MAX': '(repeat (2 ^ 64 - 1) LIMBS)'}
 
+def fv(e, acc):
+    """variables read by an expression"""
+    if isinstance(e, tuple) and len(e) == 2 and e[0] == 'var':
+        acc.add(e[1])
+    elif isinstance(e, (tuple, list)):
+        for x in e: fv(x, acc)
+    return acc
+
+GENERIC = ('Uint<LIMBS>', 'Int<LIMBS>')     # impl blocks generic over LIMBS: their items take (LIMBS : nat) first
+OWNERS = ('ConstChoice', 'Limb', 'Reciprocal', 'ConstCtOption<T>') + GENERIC
+CONST_SIGS = {}      # 'Owner::NAME' -> (coq name, type) for the associated constants translated from the source
+MUTS = {}            # key -> names of the `&mut` parameters (their final values are the function's result)
+
 class Emitter:
-    def __init__(self, sigs, selfty, selfname):
+    def owner(self, o):
+        if o == 'Self':
+            if isinstance(self.selfty, tuple) and self.selfty[0] == 'ctopt': return 'ConstCtOption<T>'
+            return {'choice': 'ConstChoice', 'limb': 'Limb', 'arr': 'Uint<LIMBS>', 'int': 'Int<LIMBS>'}.get(self.selfty, self.selfname) or ''
+        return {'Uint': 'Uint<LIMBS>', 'Int': 'Int<LIMBS>', 'ConstCtOption': 'ConstCtOption<T>'}.get(o, o)
+    def __init__(self, sigs, selfty, selfname, result=None):
         self.sigs = sigs; self.selfty = selfty; self.selfname = selfname; self.const0 = {}
+        self.result = result          # type of the value of the function body (with the final values of `&mut` parameters)
+        self.ret_t = None             # type of the last tail expression emitted
+        self.generic = selfname in GENERIC
     def isint(self, t):
         return t in BITS
     def unify(self, a, b, what):
@@ -348,6 +500,8 @@ class Emitter:
         if k == 'var':
             if e[1] == 'self':
                 return 'v_self', self.selfty
+            if e[1] == 'LIMBS' and 'LIMBS' not in env and self.generic:
+                return '(Z.of_nat LIMBS)', 'u64'          # the const generic, a usize
             if e[1] not in env:
                 raise TErr('unknown variable %s' % e[1])
             if env[e[1]] is None and self.isint(exp) and exp not in ('choice', 'limb'):
@@ -355,7 +509,15 @@ class Emitter:
             return 'v_' + e[1], env[e[1]]
         if k == 'path':
             key = tuple(e[1][-2:])
+            owner = self.owner(key[0])
+            if owner + '::' + key[1] in CONST_SIGS:
+                cname, cty = CONST_SIGS[owner + '::' + key[1]]
+                return ('(%s LIMBS)' % cname if owner in GENERIC else cname), cty
+            if key[1] == 'LIMBS' and owner in GENERIC and self.generic:
+                return '(Z.of_nat LIMBS)', 'u64'
             if key[0] in ('Self', 'Uint') and self.selfty == 'arr' and key[1] in ARR_CONSTS:
+                return ARR_CONSTS[key[1]], 'arr'
+            if key[0] == 'Uint' and self.selfty == 'int' and key[1] in ARR_CONSTS:
                 return ARR_CONSTS[key[1]], 'arr'
             if key[0] == 'Self' and self.selfty == 'limb' and ('Limb', key[1]) in CONSTS:
                 return CONSTS[('Limb', key[1])]
@@ -426,23 +588,33 @@ class Emitter:
                 return '(%s %s %s)' % ({'&': 'Z.land', '|': 'Z.lor', '^': 'Z.lxor'}[op], a, b), t
             if op in ('+', '-', '*'):
                 return '(%s %d %s %s)' % ({'+': 'add_', '-': 'sub_', '*': 'mul_'}[op], BITS[t], a, b), t
+            if op in ('/', '%') and t in BITS:
+                return '(%s %s %s)' % ('div_' if op == '/' else 'rem_', a, b), t      # unsigned; a zero divisor panics in Rust
             raise TErr('operator %s' % op)
         if k == 'repeat':
-            c, t = self.emit(e[1], env, 'limb')
             if e[2] != ('var', 'LIMBS'): raise TErr('array length must be LIMBS')
+            if e[1][0] == 'num' and e[1][2] is None and exp in (None, 'warr'):
+                # `[0; LIMBS]`: a bare integer literal is not a Limb, this is an array of words
+                return '(repeat %s LIMBS)' % self.emit(e[1], env, 'u64')[0], 'warr'
+            c, t = self.emit(e[1], env, 'limb')
             if t not in ('limb', 'u64'): raise TErr('array of %s' % t)
             return '(repeat %s LIMBS)' % c, 'arr'
         if k == 'index':
             c, t = self.emit(e[1], env, None)
-            if t != 'arr': raise TErr('indexing a %s' % (t,))
+            if t not in ('arr', 'slice', 'warr'): raise TErr('indexing a %s' % (t,))
             ic, it = self.emit(e[2], env, 'u64')
-            return '(nth (Z.to_nat %s) %s 0)' % (ic, c), 'limb'
+            if it != 'u64': raise TErr('index of type %s' % (it,))
+            return '(nth (Z.to_nat %s) %s 0)' % (ic, c), ('u64' if t == 'warr' else 'limb')
         if k == 'field':
             c, t = self.emit(e[1], env, None)
             if t == 'arr' and e[2] == 'limbs':
                 return c, 'arr'
             if t in ('choice', 'limb') and e[2] == '0':
                 return c, 'u64'
+            if t == 'int' and e[2] == '0':
+                return c, 'arr'                 # struct Int<LIMBS>(Uint<LIMBS>)
+            if isinstance(t, tuple) and t[0] == 'ctopt' and e[2] in ('value', 'is_some'):
+                return ('(fst %s)' % c, t[1]) if e[2] == 'value' else ('(snd %s)' % c, 'choice')
             if isinstance(t, tuple) and t[0] == 'tuple' and e[2].isdigit():
                 i = int(e[2]); n = len(t[1])
                 if n != 2: raise TErr('tuple field on non-pair')
@@ -457,6 +629,15 @@ class Emitter:
             c, t = self.emit(fs['limbs'], env, 'arr')
             if t != 'arr': raise TErr('Uint { limbs } of %s' % (t,))
             return c, 'arr'
+        if k == 'struct' and (e[1] == 'ConstCtOption' or (e[1] == 'Self' and isinstance(self.selfty, tuple) and self.selfty[0] == 'ctopt')):
+            # struct ConstCtOption<T> { value: T, is_some: ConstChoice } is the pair (value, is_some)
+            fs = dict(e[2])
+            if sorted(fs) != ['is_some', 'value']: raise TErr('fields of ConstCtOption')
+            want = exp[1] if isinstance(exp, tuple) and exp[0] == 'ctopt' else (self.selfty[1] if e[1] == 'Self' else None)
+            c, t = self.emit(fs['value'], env, want)
+            c2, t2 = self.emit(fs['is_some'], env, 'choice')
+            self.unify(t2, 'choice', 'field is_some')
+            return '(%s, %s)' % (c, c2), ('ctopt', t)
         if k == 'struct':
             name = self.selfname if e[1] == 'Self' else e[1]
             fs = dict(e[2]); parts = []
@@ -468,6 +649,11 @@ class Emitter:
             path = e[1]
             if path[-1] in ('Self', 'ConstChoice', 'Limb') and len(e[2]) == 1 and len(path) == 1:
                 ty = self.selfty if path[0] == 'Self' else ('choice' if path[0] == 'ConstChoice' else 'limb')
+                if ty == 'int':
+                    c, t = self.emit(e[2][0], env, 'arr')       # Int(Uint)
+                    self.unify(t, 'arr', 'newtype constructor')
+                    return c, ty
+                if ty not in ('choice', 'limb'): raise TErr('tuple-struct constructor of %s' % (ty,))
                 c, t = self.emit(e[2][0], env, 'u64')
                 self.unify(t, 'u64', 'newtype constructor')
                 return c, ty
@@ -478,12 +664,8 @@ class Emitter:
             if len(path) == 1:
                 key = path[0]
             else:
-                owner = path[-2]
-                if owner == 'Self':
-                    owner = {'choice': 'ConstChoice', 'limb': 'Limb', 'arr': 'Uint<LIMBS>'}.get(self.selfty, self.selfname)
-                if owner == 'Uint':
-                    owner = 'Uint<LIMBS>'
-                key = owner + '::' + path[-1] if owner in ('ConstChoice', 'Limb', 'Uint<LIMBS>', 'Reciprocal') else path[-1]
+                owner = self.owner(path[-2])
+                key = owner + '::' + path[-1] if owner in OWNERS else path[-1]
             return self.call(key, e[2], env)
         if k == 'mcall':
             c, t = self.emit(e[1], env, exp if e[2].startswith('wrapping_') else None)
@@ -508,20 +690,47 @@ class Emitter:
                 return self.call('Limb::' + name, [('raw', c, t)] + e[3], env)
             if t == 'arr':
                 return self.call('Uint<LIMBS>::' + name, [('raw', c, t)] + e[3], env)
+            if t == 'int':
+                return self.call('Int<LIMBS>::' + name, [('raw', c, t)] + e[3], env)
+            if t == 'slice' and name == 'len' and not e[3]:
+                return '(Z.of_nat (length %s))' % c, 'u64'      # a usize
             raise TErr('method %s on %s' % (name, t))
         if k == 'raw':
             return e[1], e[2]
+        if k == 'if':
+            # if-expression: both branches are blocks ending in an expression of the same type
+            cc, ct = self.emit(e[1], env, 'bool')
+            if ct != 'bool': raise TErr('if condition of type %s' % (ct,))
+            if not e[3]: raise TErr('if expression without else')
+            a = self.stmts(e[2], dict(env), exp, None); ta = self.ret_t
+            b = self.stmts(e[3], dict(env), exp if exp is not None else ta, None); tb = self.ret_t
+            if a is None or b is None: raise TErr('if expression whose branch has no value')
+            if ta is None and tb is not None:
+                a = self.stmts(e[2], dict(env), tb, None); ta = self.ret_t
+            t = self.unify(ta, tb, 'if branches')
+            return '(if %s then %s else %s)' % (cc, a, b), t
         raise TErr('expression kind %s' % k)
     def call(self, key, args, env):
         if key not in self.sigs:
             raise TErr('call to untranslated function %s' % key)
+        if MUTS.get(key):
+            raise TErr('call of %s (it has &mut parameters) in expression position' % key)
         cname, ptys, rty = self.sigs[key]
         if len(ptys) != len(args):
             raise TErr('arity of %s' % key)
-        parts = ['LIMBS'] if key.startswith('Uint<LIMBS>::') else []
+        parts = ['LIMBS'] if key.split('::')[0] in GENERIC else []
+        tv = None                      # instance of the type parameter T of `impl<T> ConstCtOption<T>`
         for a, pt in zip(args, ptys):
+            if pt == 'T':
+                c, t = self.emit(a, env, tv)
+                if t is None: raise TErr('cannot infer the type parameter of ' + key)
+                tv = self.unify(tv, t, 'type parameter of ' + key); parts.append(c); continue
+            if tv is not None: pt = subst_T(pt, tv)
             c, t = self.emit(a, env, pt)
+            if isinstance(pt, tuple) and pt[0] == 'ctopt' and pt[1] == 'T' and isinstance(t, tuple) and t[0] == 'ctopt':
+                tv = self.unify(tv, t[1], 'type parameter of ' + key); pt = t
             self.unify(t, pt, 'argument of ' + key); parts.append(c)
+        if tv is not None: rty = subst_T(rty, tv)
         return '(%s %s)' % (cname, ' '.join(parts)), rty
     # ---- statements
     def pat(self, p, t, env):
@@ -534,13 +743,72 @@ class Emitter:
         if not (isinstance(t, tuple) and t[0] == 'tuple' and len(t[1]) == len(p[1])):
             raise TErr('tuple pattern against %s' % (t,))
         return "'(" + ', '.join(self.pat(q, u, env).lstrip("'") for q, u in zip(p[1], t[1])) + ')'
-    def assigned(self, stmts, acc):
+    def assigned(self, stmts, acc, local=()):
+        """variables declared outside `stmts` that `stmts` assigns (in order of first assignment); a `let` inside the block
+        makes the name local from there on"""
+        local = set(local)
+        def hit(n):
+            if n not in local and n not in acc: acc.append(n)
         for s in stmts:
-            if s[0] in ('assign', 'iassign') and s[1] not in acc: acc.append(s[1])
-            if s[0] == 'while': self.assigned(s[2], acc)
+            if s[0] == 'let':
+                def names(p):
+                    if p[0] == 'id': local.add(p[1])
+                    else:
+                        for q in p[1]: names(q)
+                names(s[1])
+            if s[0] in ('assign', 'iassign'): hit(s[1])
+            if s[0] == 'tassign':
+                for pl in s[1]: hit(pl[1])
+            if s[0] == 'while': self.assigned(s[2], acc, local)
+            if s[0] == 'if':
+                self.assigned(s[2], acc, local); self.assigned(s[3] or [], acc, local)
         return acc
-    def stmts(self, ss, env, rty, tail):
-        """-> coq text; `tail` is the text that closes a non-returning block (the state tuple of a loop body)"""
+    def set_var(self, name, rhs, env):
+        """x = rhs"""
+        if name not in env: raise TErr('assignment to unknown %s' % name)
+        t = env[name]
+        if t == 'slice': raise TErr('assignment to the slice variable %s' % name)
+        c, t2 = self.emit(rhs, env, t)
+        if t is None and t2 is None: t2 = 'u64'      # a counter never used at another type: usize
+        env[name] = self.unify(env[name], t2, 'assignment')
+        self.const0[name] = False
+        return 'let v_%s := %s in\n  ' % (name, c)
+    def set_idx(self, name, ix, rhs, env):
+        """x[ix] = rhs"""
+        if env.get(name) not in ('arr', 'slice', 'warr'): raise TErr('index assignment to %s' % name)
+        ic, it = self.emit(ix, env, 'u64')
+        if env[name] == 'warr':
+            c, t2 = self.emit(rhs, env, 'u64')
+            if t2 != 'u64': raise TErr('word array element of type %s' % (t2,))
+        else:
+            c, t2 = self.emit(rhs, env, 'limb')
+            if t2 not in ('limb', 'u64'): raise TErr('array element of type %s' % (t2,))
+        return 'let v_%s := (upd_ v_%s (Z.to_nat %s) %s) in\n  ' % (name, name, ic, c)
+    def tup(self, vs):
+        return ', '.join('v_' + v for v in vs)
+    def counted(self, c, b, env):
+        """`while i < BOUND { ..; i += 1 }` with i not assigned elsewhere in the body -> (i, coq iteration count) or None"""
+        if not (c[0] == 'bin' and c[1] == '<' and c[2][0] == 'var' and b and
+                b[-1] == ('assign', c[2][1], '+', ('num', 1, None)) and c[2][1] not in self.assigned(b[:-1], [])):
+            return None
+        iv = c[2][1]; bound = c[3]
+        if self.const0.get(iv):
+            if bound == ('var', 'LIMBS') and 'LIMBS' not in env:
+                return iv, 'LIMBS'
+            if bound[0] == 'mcall' and bound[2] == 'len' and not bound[3] and bound[1][0] == 'var' and env.get(bound[1][1]) == 'slice':
+                return iv, '(length v_%s)' % bound[1][1]         # a slice never changes its length
+        # any start value, any bound the body does not change: max(0, BOUND - i) iterations (i < BOUND: `i += 1` cannot wrap)
+        if iv not in env: return None
+        asg = self.assigned(b, [])
+        if any(v in asg for v in fv(bound, set())): return None
+        t = env[iv] or 'u64'
+        bc, bt = self.emit(bound, env, t)
+        self.unify(bt, t, 'loop bound')
+        env[iv] = t
+        return iv, '(Z.to_nat (%s - v_%s))' % (bc, iv)
+    def stmts(self, ss, env, rty, tail, top=False):
+        """-> coq text; `tail` is the text that closes a non-returning block (the state tuple of a loop body / if branch);
+        `top`: the block is the function body (a `panic!` guard may only stand there)"""
         out = ''
         i = 0
         while i < len(ss):
@@ -556,19 +824,52 @@ class Emitter:
                     self.const0[s[1][1]] = (s[3] == ('num', 0, None))
                 out += 'let %s := %s in\n  ' % (p, c)
             elif s[0] == 'assign':
-                if s[1] not in env: raise TErr('assignment to unknown %s' % s[1])
-                t = env[s[1]]
                 rhs = s[3] if s[2] is None else ('bin', s[2], ('var', s[1]), s[3])
-                c, t2 = self.emit(rhs, env, t)
-                if t is None and t2 is None: t2 = 'u64'      # a counter never used at another type: usize
-                env[s[1]] = self.unify(env[s[1]], t2, 'assignment')
-                out += 'let v_%s := %s in\n  ' % (s[1], c)
+                out += self.set_var(s[1], rhs, env)
             elif s[0] == 'iassign':
-                if env.get(s[1]) != 'arr': raise TErr('index assignment to %s' % s[1])
-                ic, it = self.emit(s[2], env, 'u64')
-                c, t2 = self.emit(s[3], env, 'limb')
-                if t2 not in ('limb', 'u64'): raise TErr('array element of type %s' % (t2,))
-                out += 'let v_%s := (upd_ v_%s (Z.to_nat %s) %s) in\n  ' % (s[1], s[1], ic, c)
+                out += self.set_idx(s[1], s[2], s[3], env)
+            elif s[0] == 'tassign':
+                # (p0, p1, ..) = rhs : the right-hand side first, then the places left to right
+                c, t = self.emit(s[2], env, None)
+                if not (isinstance(t, tuple) and t[0] == 'tuple' and len(t[1]) == len(s[1])):
+                    raise TErr('destructuring assignment of %s' % (t,))
+                out += "let '(%s) := %s in\n  " % (', '.join('tmp_%d' % k for k in range(len(s[1]))), c)
+                for k, pl in enumerate(s[1]):
+                    r = ('raw', 'tmp_%d' % k, t[1][k])
+                    out += self.set_var(pl[1], r, env) if pl[0] == 'pvar' else self.set_idx(pl[1], pl[2], r, env)
+            elif s[0] == 'if' and s[2] == [('panic',)] and s[3] is None:
+                # `if c { panic!(..) }` guard: the rest of the function is the else branch
+                if not top or self.result is None: raise TErr('panic! outside the function body block')
+                cc, ct = self.emit(s[1], env, 'bool')
+                if ct != 'bool': raise TErr('if condition of type %s' % (ct,))
+                rest = self.stmts(ss[i + 1:], env, rty, tail, top)
+                return out + 'if %s then (panic_ %s) else\n  %s' % (cc, dummy(self.result), rest)
+            elif s[0] == 'if' and len(s[2]) == 1 and s[2][0][0] == 'return' and s[3] is None:
+                # `if c { return e; }` guard at the top level of the function body: the rest of the function is the else branch
+                if not top or rty is None: raise TErr('return outside the function body block')
+                cc, ct = self.emit(s[1], env, 'bool')
+                if ct != 'bool': raise TErr('if condition of type %s' % (ct,))
+                rc, rt = self.emit(s[2][0][1], env, rty)
+                self.unify(rt, rty, 'return value')
+                rest = self.stmts(ss[i + 1:], env, rty, tail, top)
+                return out + 'if %s then %s else\n  %s' % (cc, rc, rest)
+            elif s[0] == 'return':
+                raise TErr('return outside an `if c { return e; }` guard')
+            elif s[0] == 'if':
+                cc, ct = self.emit(s[1], env, 'bool')
+                if ct != 'bool': raise TErr('if condition of type %s' % (ct,))
+                vs = self.assigned(s[2], []); self.assigned(s[3] or [], vs)
+                for v in vs:
+                    if v not in env: raise TErr('assignment to unknown %s' % v)
+                if not vs: raise TErr('if statement that assigns nothing')
+                tup = self.tup(vs); tl = '(%s)' % tup if len(vs) > 1 else tup
+                ea = dict(env); a = self.stmts(s[2], ea, None, tl)
+                eb = dict(env); b = self.stmts(s[3] or [], eb, None, tl)
+                for v in vs:
+                    env[v] = self.unify(ea[v], eb[v], 'if branches, variable ' + v); self.const0[v] = False
+                out += "let %s := if %s then (%s) else (%s) in\n  " % (("'" + tl) if len(vs) > 1 else tl, cc, a, b)
+            elif s[0] == 'panic':
+                raise TErr('panic! outside an `if c { panic!(..) }` guard')
             elif s[0] == 'while':
                 c, b = s[1], s[2]
                 if c[0] == 'bin' and c[1] == '<' and c[2][0] == 'var' and c[3][0] == 'num' and b and \
@@ -580,24 +881,27 @@ class Emitter:
                         out += 'let v_%s := %d in\n  ' % (iv, kk)
                         out += self.stmts(b[:-1], env, None, '')
                     out += 'let v_%s := %d in\n  ' % (iv, n)
-                elif c[0] == 'bin' and c[1] == '<' and c[2][0] == 'var' and c[3] == ('var', 'LIMBS') and b and \
-                        b[-1] == ('assign', c[2][1], '+', ('num', 1, None)) and c[2][1] not in self.assigned(b[:-1], []) and \
-                        self.const0.get(c[2][1]):
-                    # `let mut i = 0; while i < LIMBS { ..; i += 1 }` : exactly LIMBS iterations
-                    iv = c[2][1]
-                    env[iv] = 'u64'
+                elif self.counted(c, b, env):
+                    # `let mut i = 0; while i < LIMBS { ..; i += 1 }` : exactly LIMBS iterations (x.len(): length x)
+                    iv, count = self.counted(c, b, env)
+                    env[iv] = env.get(iv) or 'u64'
                     vs = [iv] + [v for v in self.assigned(b[:-1], []) if v in env and v != iv]
-                    tup = ', '.join('v_' + v for v in vs)
-                    body = self.stmts(b, env, None, '(%s)' % tup)
-                    out += "let '(%s) := Nat.iter LIMBS (fun st => let '(%s) := st in\n  %s) (%s) in\n  " % (tup, tup, body, tup)
-                    self.const0[iv] = False
+                    tup = self.tup(vs)
+                    env2 = dict(env)
+                    body = self.stmts(b, env2, None, '(%s)' % tup)
+                    for v in vs:
+                        env[v] = env2[v]; self.const0[v] = False
+                    for v in env:
+                        if env[v] is None: env[v] = env2.get(v)      # an untyped literal first used (read) in the body
+                    out += "let '(%s) := Nat.iter %s (fun st => let '(%s) := st in\n  %s) (%s) in\n  " % (tup, count, tup, body, tup)
                 elif c[0] == 'bin' and c[1] == '>' and c[2][0] == 'var' and c[3] == ('num', 0, None) and b and \
                         b[0] == ('assign', c[2][1], '-', ('num', 1, None)) and c[2][1] not in self.assigned(b[1:], []):
                     iv = c[2][1]
                     vs = [iv] + [v for v in self.assigned(b[1:], []) if v in env and v != iv]
-                    tup = ', '.join('v_' + v for v in vs)
+                    tup = self.tup(vs)
                     env2 = dict(env)
                     body = self.stmts(b, env2, None, '(%s)' % tup)
+                    for v in vs: self.const0[v] = False
                     out += "let '(%s) := Nat.iter (Z.to_nat v_%s) (fun st => let '(%s) := st in\n  %s) (%s) in\n  " % (tup, iv, tup, body, tup)
                 else:
                     raise TErr('unsupported while loop shape')
@@ -605,34 +909,85 @@ class Emitter:
                 if i != len(ss) - 1: raise TErr('expression before end of block')
                 c, t = self.emit(s[1], env, rty)
                 if rty is not None: self.unify(t, rty, 'return value')
+                self.ret_t = t
                 return out + c
+            else:
+                raise TErr('statement kind %s' % s[0])
             i += 1
+        if tail is None: raise TErr('block has no value')
         return out + tail
 
-def translate(src, name, cname, impl, sigs):
-    selfty = {'ConstChoice': 'choice', 'Reciprocal': ('struct', 'Reciprocal'), 'Limb': 'limb', 'Uint<LIMBS>': 'arr'}.get(impl)
-    params, ret, body = find_fn(src, name, impl)
-    ps = []
+SELFTY = {'ConstChoice': 'choice', 'Reciprocal': ('struct', 'Reciprocal'), 'Limb': 'limb', 'Uint<LIMBS>': 'arr', 'Int<LIMBS>': 'int',
+          'ConstCtOption<T>': ('ctopt', 'T')}
+
+def translate(src, name, cname, impl, sigs, trait=None):
+    """-> parameters, declared return type, body text, type of Self, names of the `&mut` parameters"""
+    selfty = SELFTY.get(impl)
+    params, ret, body = find_fn(src, name, impl, trait)
+    ps = []; muts = []
     for p in split_top(params):
         p = p.strip()
         if not p: continue
+        if re.fullmatch(r'&?\s*self', p):
+            ps.append(('self', selfty)); continue
         if re.fullmatch(r'&?\s*(mut\s+)?self', p):
+            if p.startswith('&'): raise TErr('&mut self')
             ps.append(('self', selfty)); continue
         m = re.fullmatch(r'(?:mut\s+)?(\w+)\s*:\s*(.+)', p, re.S)
         if not m: raise TErr('parameter %r' % p)
-        ps.append((m.group(1), parse_type(m.group(2), selfty)))
+        ty = parse_type(m.group(2), selfty)
+        if re.match(r'&\s*mut\b', m.group(2).strip()):
+            if ty != 'slice': raise TErr('&mut parameter of type %s' % (ty,))
+            muts.append(m.group(1))
+        ps.append((m.group(1), ty))
     rty = parse_type(ret, selfty) if ret else ('tuple', [])
-    return ps, rty, body, selfty
+    if muts and rty != ('tuple', []):
+        raise TErr('&mut parameters together with a return value')
+    return ps, rty, body, selfty, muts
+
+def find_const(src, name, impl):
+    """`const NAME: T = expr;` inside the inherent impl blocks of `impl` -> (type text, expression text)"""
+    ms = list(re.finditer(r'^impl(?:<[^>]*>)?\s+%s\s*\{' % re.escape(impl), src, re.M))
+    scope = ''
+    for m in ms:
+        k = m.end(); depth = 1
+        while depth and k < len(src):
+            depth += (src[k] == '{') - (src[k] == '}'); k += 1
+        scope += src[m.end():k - 1] + '\n'
+    for m in re.finditer(r'(?:pub(?:\([a-z]+\))?\s+)?const\s+%s\s*:\s*([^=;]+?)\s*=' % re.escape(name), scope):
+        pre = scope[:m.start()]
+        attrs = re.findall(r'#\[[^\]]*\]', pre[-200:])
+        if any('target_pointer_width = "32"' in a for a in attrs[-2:]):
+            continue
+        k = m.end(); depth = 0
+        while not (scope[k] == ';' and depth == 0):
+            depth += (scope[k] in '([{') - (scope[k] in ')]}'); k += 1
+        return m.group(1), scope[m.end():k]
+    raise TErr('const %s not found' % name)
 
 def gen_group(repo, group, sigs):
-    """group: {'file': out, 'fns': [ {src, name, impl, coq} ... ]} -> coq text, report; `sigs` accumulates over the groups"""
+    """group: {'file': out, 'fns': [ {src, name | const, impl, coq} ... ]} -> coq text, report; `sigs` accumulates over the groups"""
     bodies = []; report = []
     parsed = []
     for f in group['fns']:
         src = open(os.path.join(repo, f['src'])).read()
+        if 'const' in f:
+            key = f['impl'] + '::' + f['const']
+            try:
+                tsrc, esrc = find_const(src, f['const'], f['impl'])
+                cty = parse_type(tsrc, SELFTY.get(f['impl']))
+                CONST_SIGS[key] = (f['coq'], cty)
+                parsed.append((f, key, [], cty, esrc, SELFTY.get(f['impl']), None))
+            except TErr as e:
+                parsed.append((f, key, None, None, None, None, str(e)))
+            continue
         key = (f['impl'] + '::' + f['name']) if f.get('impl') else f['name']
         try:
-            ps, rty, body, selfty = translate(src, f['name'], f['coq'], f.get('impl'), sigs)
+            ps, rty, body, selfty, muts = translate(src, f['name'], f['coq'], f.get('impl'), sigs, f.get('trait'))
+            if muts:
+                MUTS[key] = muts
+                pt = dict(ps)
+                rty = pt[muts[0]] if len(muts) == 1 else ('tuple', [pt[m] for m in muts])
             sigs[key] = (f['coq'], [t for _, t in ps], rty)
             parsed.append((f, key, ps, rty, body, selfty, None))
         except TErr as e:
@@ -640,20 +995,31 @@ def gen_group(repo, group, sigs):
     for f, key, ps, rty, body, selfty, err in parsed:
         if err is None:
             try:
-                em = Emitter(sigs, selfty, f.get('impl'))
+                em = Emitter(sigs, selfty, f.get('impl'), rty)
                 env = {n: t for n, t in ps if n != 'self'}
                 toks = lex(body)
                 ss = P(toks).block()
-                code = em.stmts(ss, env, rty, '')
+                if key in MUTS:
+                    # a unit function that writes through `&mut` parameters: its value is their final contents
+                    tl = em.tup(MUTS[key])
+                    code = em.stmts(ss, env, None, '(%s)' % tl if len(MUTS[key]) > 1 else tl, top=True)
+                else:
+                    code = em.stmts(ss, env, rty, '', top=True)
                 args = ' '.join('(v_%s : %s)' % (n, coq_type(t)) for n, t in ps)
-                if f.get('impl') == 'Uint<LIMBS>':
+                if f.get('impl') in GENERIC:
                     args = '(LIMBS : nat) ' + args
-                bodies.append('(* %s :: %s *)\nDefinition %s %s : %s :=\n  %s.\n' % (f['src'], key, f['coq'], args, coq_type(rty), code))
+                if f.get('impl') == 'ConstCtOption<T>':
+                    args = '{T : Type} ' + args
+                if 'const' in f:
+                    args = args.rstrip()
+                    bodies.append('(* %s :: %s (associated constant) *)\nDefinition %s%s : %s :=\n  %s.\n' % (f['src'], key, f['coq'], ' ' + args if args else '', coq_type(rty), code))
+                else:
+                    bodies.append('(* %s :: %s *)\nDefinition %s %s : %s :=\n  %s.\n' % (f['src'], key, f['coq'], args, coq_type(rty), code))
                 report.append((key, 'ok'))
                 continue
             except TErr as e:
                 err = str(e)
-            except (IndexError, KeyError, ValueError) as e:
+            except (IndexError, KeyError, ValueError, TypeError) as e:
                 err = 'translator exception %r' % (e,)
         report.append((key, 'FAILED: ' + err))
         bodies.append('(* %s :: %s  NOT TRANSLATED: %s *)\nDefinition %s : unit := tt.\n' % (f['src'], key, err.replace('*)', '* )'), f['coq']))
